@@ -124,6 +124,117 @@ func (p *gatePD) GetLocalTSAsync(ctx context.Context, dc string) tso.TSFuture {
 	return &gateFuture{p, ctx}
 }
 
+// ---------------------------------------------------------------- late-prewrite guard (harness-side normalisation)
+//
+// TiKV rejects a prewrite of (key, start ts) that arrives after that transaction was rolled back on the key
+// (rollback record; the in-repo mock does the same, property C12). unistore checks the rollback record only
+// for the primary key of an optimistic prewrite, so the gate enforces the contract for the other keys: it
+// remembers every rollback effect it saw delivered and answers a later prewrite of such a (key, start ts)
+// with WriteConflict{SelfRolledBack} instead of delivering it. Recorded in the evidence as a normalisation.
+type rbGuard struct {
+	mu        sync.Mutex
+	rolled    map[string]bool            // start|key
+	prewrote  map[uint64]map[string]uint64 // start -> key -> region id of the successful prewrite
+	rejected  int
+}
+
+func newGuard() *rbGuard {
+	return &rbGuard{rolled: map[string]bool{}, prewrote: map[uint64]map[string]uint64{}}
+}
+func gk(start uint64, k []byte) string { return fmt.Sprintf("%d|%x", start, k) }
+
+func (g *rbGuard) observe(req *tikvrpc.Request, resp *tikvrpc.Response, err error) {
+	if err != nil || resp == nil || resp.Resp == nil {
+		return
+	}
+	if re, e2 := resp.GetRegionError(); e2 != nil || re != nil {
+		return
+	}
+	g.mu.Lock()
+	defer g.mu.Unlock()
+	switch req.Type {
+	case tikvrpc.CmdPrewrite:
+		r := req.Prewrite()
+		if len(resp.Resp.(*kvrpcpb.PrewriteResponse).Errors) == 0 {
+			m := g.prewrote[r.StartVersion]
+			if m == nil {
+				m = map[string]uint64{}
+				g.prewrote[r.StartVersion] = m
+			}
+			for _, mu := range r.Mutations {
+				m[string(mu.Key)] = req.Context.GetRegionId()
+			}
+		}
+	case tikvrpc.CmdBatchRollback:
+		r := req.BatchRollback()
+		if resp.Resp.(*kvrpcpb.BatchRollbackResponse).Error == nil {
+			for _, k := range r.Keys {
+				g.rolled[gk(r.StartVersion, k)] = true
+			}
+		}
+	case tikvrpc.CmdResolveLock:
+		r := req.ResolveLock()
+		if resp.Resp.(*kvrpcpb.ResolveLockResponse).Error != nil {
+			return
+		}
+		mark := func(start uint64) {
+			if len(r.Keys) > 0 {
+				for _, k := range r.Keys {
+					g.rolled[gk(start, k)] = true
+				}
+				return
+			}
+			for k, reg := range g.prewrote[start] {
+				if reg == req.Context.GetRegionId() {
+					g.rolled[gk(start, []byte(k))] = true
+				}
+			}
+		}
+		if len(r.TxnInfos) > 0 {
+			for _, ti := range r.TxnInfos {
+				if ti.Status == 0 {
+					mark(ti.Txn)
+				}
+			}
+		} else if r.CommitVersion == 0 {
+			mark(r.StartVersion)
+		}
+	case tikvrpc.CmdCheckSecondaryLocks:
+		r := req.CheckSecondaryLocks()
+		rs := resp.Resp.(*kvrpcpb.CheckSecondaryLocksResponse)
+		if rs.Error == nil && rs.CommitTs == 0 && len(rs.Locks) < len(r.Keys) {
+			have := map[string]bool{}
+			for _, l := range rs.Locks {
+				have[string(l.Key)] = true
+			}
+			for _, k := range r.Keys {
+				if !have[string(k)] {
+					g.rolled[gk(r.StartVersion, k)] = true
+				}
+			}
+		}
+	}
+}
+
+// reject returns a fabricated WriteConflict{SelfRolledBack} response if the prewrite touches a rolled-back (key, start)
+func (g *rbGuard) reject(req *tikvrpc.Request) *tikvrpc.Response {
+	if req.Type != tikvrpc.CmdPrewrite {
+		return nil
+	}
+	r := req.Prewrite()
+	g.mu.Lock()
+	defer g.mu.Unlock()
+	for _, mu := range r.Mutations {
+		if g.rolled[gk(r.StartVersion, mu.Key)] {
+			g.rejected++
+			return &tikvrpc.Response{Resp: &kvrpcpb.PrewriteResponse{Errors: []*kvrpcpb.KeyError{{Conflict: &kvrpcpb.WriteConflict{
+				StartTs: r.StartVersion, ConflictTs: r.StartVersion, ConflictCommitTs: r.StartVersion, Key: mu.Key, Primary: r.PrimaryLock,
+				Reason: kvrpcpb.WriteConflict_SelfRolledBack}}}}}
+		}
+	}
+	return nil
+}
+
 // ---------------------------------------------------------------- gate (tikv.Client wrapper)
 
 type action struct {
@@ -153,6 +264,8 @@ type gate struct {
 	never    chan struct{}
 	crashedAt atomic.Int64
 	lastAct  atomic.Int64
+	mu       sync.Mutex
+	guard    *rbGuard
 }
 
 func newGate(inner tikv.Client, id string, tr *Trace, reqSeq *atomic.Int64) *gate {
@@ -227,12 +340,20 @@ func (g *gate) SendRequest(ctx context.Context, addr string, req *tikvrpc.Reques
 	f := reqFields(req)
 	f["idx"] = idx
 	f["act"] = act
+	// sending and dying are atomic with respect to each other: no send is recorded after the crash
+	g.mu.Lock()
+	if g.frozen.Load() {
+		g.mu.Unlock()
+		return g.block(ctx)
+	}
 	if act == "crash_undelivered" {
 		g.frozen.Store(true)
 		g.trace.add(Event{Kind: "crash", Client: g.id, ReqID: id, Cmd: req.Type.String(), F: f})
+		g.mu.Unlock()
 		return g.block(ctx)
 	}
 	g.trace.add(Event{Kind: "send", Client: g.id, ReqID: id, Cmd: req.Type.String(), F: f})
+	g.mu.Unlock()
 	if hook != nil {
 		hook()
 	}
@@ -249,13 +370,25 @@ func (g *gate) SendRequest(ctx context.Context, addr string, req *tikvrpc.Reques
 		return resp, err
 	}
 	g.inflight.Add(1)
-	resp, err := g.inner.SendRequest(ctx, addr, req, timeout)
+	var resp *tikvrpc.Response
+	var err error
+	if g.guard != nil {
+		resp = g.guard.reject(req)
+	}
+	if resp == nil {
+		resp, err = g.inner.SendRequest(ctx, addr, req, timeout)
+		if g.guard != nil {
+			g.guard.observe(req, resp, err)
+		}
+	}
 	rf := respFields(req, resp, err)
 	g.trace.add(Event{Kind: "deliver", Client: g.id, ReqID: id, Cmd: req.Type.String(), F: rf})
 	g.inflight.Add(-1)
 	if act == "crash_delivered" {
+		g.mu.Lock()
 		g.frozen.Store(true)
 		g.trace.add(Event{Kind: "crash", Client: g.id, ReqID: id, Cmd: req.Type.String(), F: map[string]interface{}{"idx": idx, "delivered": true}})
+		g.mu.Unlock()
 		return g.block(ctx)
 	}
 	if g.frozen.Load() {
@@ -265,7 +398,13 @@ func (g *gate) SendRequest(ctx context.Context, addr string, req *tikvrpc.Reques
 	if act == "dropresp" {
 		return nil, errors.New("verif gate: response lost (deadline exceeded)")
 	}
+	g.mu.Lock()
+	if g.frozen.Load() {
+		g.mu.Unlock()
+		return g.block(ctx)
+	}
 	g.trace.add(Event{Kind: "reply", Client: g.id, ReqID: id, Cmd: req.Type.String(), F: rf})
+	g.mu.Unlock()
 	return resp, err
 }
 
